@@ -79,7 +79,7 @@ mod xen {
     use crate::report::{hex, Ctx};
     use crate::xen_emu::{DevEvent, Emu, PAGE};
     use serde_json::json;
-    use vm_memory::{GuestMemoryRegion, GuestRegionMmap};
+    use vm_memory::{GuestMemoryRegion, GuestRegionMmap, VolatileSlice};
 
     /// bytes of the region the operation touches according to the reference model
     fn touched(op: &Op, l: usize) -> Option<(usize, usize)> {
@@ -187,20 +187,83 @@ mod xen {
         }
     }
 
+    /// A slice derived from the region's own slice: the accesses go through the derived accessor,
+    /// which must still know that its memory is mapped on demand.
+    #[derive(Clone, Copy, Debug)]
+    enum Deriv {
+        SplitFirst(usize),
+        SplitSecond(usize),
+        Subslice(usize, usize),
+        Offset(usize),
+        SplitFirstThenSecond(usize, usize),
+        SplitSecondThenFirst(usize, usize),
+        ArrayToSlice(usize, usize),
+        GetSlice(usize, usize),
+        RefToSlice(usize),
+    }
+
+    impl Deriv {
+        /// (start within the region, length) of the derived slice
+        fn extent(self, l: usize) -> (usize, usize) {
+            match self {
+                Deriv::SplitFirst(m) => (0, m),
+                Deriv::SplitSecond(m) => (m, l - m),
+                Deriv::Subslice(a, n) | Deriv::ArrayToSlice(a, n) | Deriv::GetSlice(a, n) => (a, n),
+                Deriv::Offset(a) => (a, l - a),
+                Deriv::SplitFirstThenSecond(m, k) => (k, m - k),
+                Deriv::SplitSecondThenFirst(k, m) => (k, m),
+                Deriv::RefToSlice(a) => (a, 16),
+            }
+        }
+        fn apply<'a>(self, vs: &'a VolatileSlice<'a, ()>) -> VolatileSlice<'a, ()> {
+            use vm_memory::VolatileMemory;
+            match self {
+                Deriv::SplitFirst(m) => vs.split_at(m).unwrap().0,
+                Deriv::SplitSecond(m) => vs.split_at(m).unwrap().1,
+                Deriv::Subslice(a, n) => vs.subslice(a, n).unwrap(),
+                Deriv::Offset(a) => vs.offset(a).unwrap(),
+                Deriv::SplitFirstThenSecond(m, k) => vs.split_at(m).unwrap().0.split_at(k).unwrap().1,
+                Deriv::SplitSecondThenFirst(k, m) => vs.split_at(k).unwrap().1.split_at(m).unwrap().0,
+                Deriv::ArrayToSlice(a, n) => vs.get_array_ref::<u8>(a, n).unwrap().to_slice(),
+                Deriv::GetSlice(a, n) => vs.get_slice(a, n).unwrap(),
+                Deriv::RefToSlice(a) => vs.get_ref::<[u8; 16]>(a).unwrap().to_slice(),
+            }
+        }
+    }
+
     /// One operation on one region; returns the successor state.
     fn step(ctx: &Ctx, r: &Region, state: &[u8], op: &Op, tag: u8, hist: &[Op]) -> Option<Vec<u8>> {
+        step_on(ctx, r, state, op, tag, hist, None)
+    }
+
+    /// One operation through the region's slice or through a slice derived from it.
+    fn step_on(ctx: &Ctx, r: &Region, state: &[u8], op: &Op, tag: u8, hist: &[Op], deriv: Option<Deriv>) -> Option<Vec<u8>> {
         let on_demand = r.kind == "grant-on-demand";
-        let key_base = format!("C17/xen/{}/{}", r.kind, op.name());
-        let rp = || json!({"region": r.kind, "region_len": r.len, "history": hist.iter().map(|o| o.to_json()).collect::<Vec<_>>(), "op": op.to_json(), "tag": tag});
+        let key_base = match deriv {
+            None => format!("C17/xen/{}/{}", r.kind, op.name()),
+            Some(_) => format!("C17/xen/{}/{} (through a derived slice)", r.kind, op.name()),
+        };
+        let rp = || json!({"region": r.kind, "region_len": r.len, "history": hist.iter().map(|o| o.to_json()).collect::<Vec<_>>(), "op": op.to_json(), "tag": tag, "derived_slice": deriv.map(|d| format!("{:?}", d))});
         r.set_state(state);
         r.emu.take_log();
-        let vs = match r.reg.as_volatile_slice() {
+        let root = match r.reg.as_volatile_slice() {
             Ok(v) => v,
             Err(e) => {
                 ctx.fail(&format!("{}/as_volatile_slice", key_base), &format!("{:?}", e), rp());
                 return None;
             }
         };
+        let (da, dlen) = deriv.map_or((0, r.len), |d| d.extent(r.len));
+        let vs = match deriv {
+            None => root,
+            Some(d) => d.apply(&root),
+        };
+        // (deriving maps nothing)
+        if deriv.is_some() && !r.emu.take_log().is_empty() && r.kind != "grant-on-demand" {
+            ctx.fail(&format!("{}/unexpected-device-request", key_base), "deriving a slice made a device request", rp());
+        }
+        let full_state = state;
+        let state = &full_state[da..da + dlen];
         ctx.case(true);
         // probe in a child: an access outside any window faults
         let probe = in_child(|| {
@@ -224,13 +287,18 @@ mod xen {
         }
         // the child worked on a copy-on-write image of the emulator state but on the same file:
         // restore the contents and run for real
-        r.set_state(state);
+        r.set_state(full_state);
         r.emu.take_log();
-        let ptr = 0usize; // host pointer alignment class: the region is page aligned
+        let ptr = da; // host pointer alignment class: the region is page aligned
         let exp = c04::model_op(state, ptr, op, tag);
         let res = c04::run_op(&vs, op, tag);
-        let after = r.state();
+        let after_full = r.state();
         let log = r.emu.take_log();
+        let mut outside_changed = false;
+        if after_full[..da] != full_state[..da] || after_full[da + dlen..] != full_state[da + dlen..] {
+            outside_changed = true;
+        }
+        let after = after_full[da..da + dlen].to_vec();
         let mut bad: Option<(&str, String)> = None;
         if !exp.out.contains(&res.out) {
             bad = Some(("result", format!("returned {:?}, expected {:?}", res.out, exp.out)));
@@ -247,9 +315,12 @@ mod xen {
                 bad = Some(("buffer", format!("buffer {} vs {}", hex(&res.buf[..res.buf.len().min(32)]), hex(&b[..b.len().min(32)]))));
             }
         }
+        if outside_changed {
+            bad = Some(("memory-outside-the-derived-slice", "bytes of the region outside the derived slice changed".into()));
+        }
         if on_demand {
-            if let Some((off, n)) = touched(op, r.len) {
-                let lo = r.first_page * PAGE + off as u64;
+            if let Some((off, n)) = touched(op, dlen) {
+                let lo = r.first_page * PAGE + (da + off) as u64;
                 let hi = lo + n as u64;
                 let mut page = lo / PAGE * PAGE;
                 while page < hi {
@@ -275,10 +346,48 @@ mod xen {
         if let Some((k, d)) = bad {
             let key = format!("{}/{}", key_base, k);
             let rpv = if ctx.has_failed(&key) { serde_json::Value::Null } else { rp() };
-            ctx.fail(&key, &format!("{:?}: {}", op, d), rpv);
+            ctx.fail(&key, &format!("{:?}{}: {}", op, deriv.map_or(String::new(), |x| format!(" through {:?}", x)), d), rpv);
             return None;
         }
-        Some(after)
+        Some(after_full)
+    }
+
+    /// Every derivation the slice API offers, then the access operations through the derived
+    /// slice (offsets relative to it), on the region kinds that map on demand and in advance.
+    fn derived(ctx: &Ctx, r: &Region, init: &[u8]) -> u64 {
+        let l = r.len;
+        let derivs = [
+            Deriv::SplitFirst(4100), Deriv::SplitFirst(100), Deriv::SplitSecond(4090), Deriv::SplitSecond(4096), Deriv::Subslice(5, 5000), Deriv::Offset(4096), Deriv::Offset(7),
+            Deriv::SplitFirstThenSecond(4100, 10), Deriv::SplitSecondThenFirst(10, 4100), Deriv::ArrayToSlice(3, 6000), Deriv::GetSlice(4000, 200), Deriv::RefToSlice(4088),
+        ];
+        let mut t = 0u64;
+        for (di, d) in derivs.iter().enumerate() {
+            let (_, dl) = d.extent(l);
+            let mut ops = vec![
+                Op::Write { off: 0, len: 8.min(dl), mis: 0 },
+                Op::Read { off: 0, len: dl.min(5000), mis: 1 },
+                Op::Write { off: dl - dl.min(13), len: 13, mis: 2 },
+                Op::WriteObj { ty: Ty::U64, off: dl - 8 },
+                Op::ReadObj { ty: Ty::U32, off: dl / 2 },
+                Op::RefStore { ty: Ty::U32, off: 1 },
+                Op::RefLoad { ty: Ty::U16, off: dl - 2 },
+                Op::ArrCopyFrom { ty: Ty::U16, off: 2, n: 4, m: 4 },
+                Op::ArrLoad { ty: Ty::U32, off: 0, n: 3, i: 2 },
+                Op::ReadFrom { off: 0, count: dl },
+                Op::WriteTo { off: dl / 2, count: 16 },
+                Op::WriteAllTo { off: 0, count: dl.min(4097) },
+                Op::SliceCopyFrom { ty: Ty::U8, off: 3, len: 9.min(dl - 3), m: 9 },
+            ];
+            if dl >= 32 {
+                ops.push(Op::SliceCopyToVs { off: 0, len: 16, dst: Dst::Same(16, 16) });
+                ops.push(Op::SliceCopyToVs { off: dl - 16, len: 16, dst: Dst::Foreign(16) });
+            }
+            for (k, op) in ops.iter().enumerate() {
+                t += 1;
+                step_on(ctx, r, init, op, (di * 16 + k) as u8 % 100 + 1, &[], Some(*d));
+            }
+        }
+        t
     }
 
     /// Environment faults with deviation bound 1: the operation is run once to count the mmap calls
@@ -522,6 +631,7 @@ mod xen {
         let mut fault_runs = 0u64;
         let mut windows_total = 0u64;
         let mut fd_runs = 0u64;
+        let mut derived_runs = 0u64;
         for (kind, pages) in [("grant-on-demand", 2usize), ("grant-on-demand", 3), ("grant-in-advance", 2), ("foreign", 2), ("unix", 2)] {
             let len = pages * 4096;
             // a foreign mapping always starts at offset 0 of the device file
@@ -559,6 +669,9 @@ mod xen {
                 }
             }
             fd_runs += fd_transfers(ctx, &r, &init, thorough);
+            if kind == "grant-on-demand" || (kind == "grant-in-advance") {
+                derived_runs += derived(ctx, &r, &init);
+            }
             // accessors that hand out plain references: nothing can keep a window mapped for them
             if kind == "grant-on-demand" && pages == 2 {
                 use std::sync::atomic::{AtomicU32, Ordering};
@@ -619,6 +732,7 @@ mod xen {
         ctx.extra("max_simultaneous_windows_sum", json!(windows_total));
         ctx.extra("injected_fault_runs", json!(fault_runs));
         ctx.extra("descriptor_transfers", json!(fd_runs));
+        ctx.extra("operations_through_derived_slices", json!(derived_runs));
         ctx.sample(json!({"region": "grant-on-demand, 2 pages", "op": "WriteObj { ty: U64, off: 4092 }", "required": "windows requested from the emulated gntdev cover guest pages 8 and 9; data lands at file offsets 0x8ffc..0x9004; no window left"}));
     }
 }
@@ -626,7 +740,7 @@ mod xen {
 pub fn run(tier: Tier, replay: Option<String>) -> i32 {
     let ctx = crate::new_ctx("C17", tier, "model_checking", &replay);
     let build = if cfg!(feature = "xen") { "xen" } else { "std" };
-    ctx.set_rule("(a) guards: every accessor kind (VolatileSlice at offsets 0..=16 x lengths 0..=16; VolatileRef and VolatileArrayRef for 23 element types covering every size 1..16, offsets 0..=16, element counts 0..=9; to_slice and ref_at derivatives): ptr_guard/ptr_guard_mut len == bytes covered and pointer == first byte. (b) Xen build, emulated gntdev/privcmd (link-time interposed ioctl + mmap): on on-demand grant regions of 2 and 3 pages every access operation of the container alphabet at offsets {0,1,4090..4100,8190..8193,last} and lengths crossing 0, 1 and 2 page boundaries, 12 element types, arrays whose byte length exceeds their element count, and all histories of up to 3 operations over a boundary alphabet (state = region contents, carried over): each operation is first probed in a forked child (a dereference outside any window faults), then executed; the windows requested from the device must cover every page of the bytes the reference model says are touched, the data must be right (read back from the backing file), and no window may remain. Environment faults, deviation bound 1: every operation is re-run once per mmap call and once per map-grant request it makes with exactly that call failing; afterwards no process mapping and no device window may remain, the device protocol must have been respected (the emulated gntdev hands out first-fit indexes unrelated to guest addresses and serves mmap only for an exactly matching live window), and a complete success may not be reported with wrong data. Advance-mapped grant, foreign and UNIX regions: same operations, no device request allowed. States/transitions: one transition per operation executed on the real region.");
+    ctx.set_rule("(a) guards: every accessor kind (VolatileSlice at offsets 0..=16 x lengths 0..=16; VolatileRef and VolatileArrayRef for 23 element types covering every size 1..16, offsets 0..=16, element counts 0..=9; to_slice and ref_at derivatives): ptr_guard/ptr_guard_mut len == bytes covered and pointer == first byte. (b) Xen build, emulated gntdev/privcmd (link-time interposed ioctl + mmap): on on-demand grant regions of 2 and 3 pages every access operation of the container alphabet at offsets {0,1,4090..4100,8190..8193,last} and lengths crossing 0, 1 and 2 page boundaries, 12 element types, arrays whose byte length exceeds their element count, and all histories of up to 3 operations over a boundary alphabet (state = region contents, carried over): each operation is first probed in a forked child (a dereference outside any window faults), then executed; the windows requested from the device must cover every page of the bytes the reference model says are touched, the data must be right (read back from the backing file), and no window may remain. Environment faults, deviation bound 1: every operation is re-run once per mmap call and once per map-grant request it makes with exactly that call failing; afterwards no process mapping and no device window may remain, the device protocol must have been respected (the emulated gntdev hands out first-fit indexes unrelated to guest addresses and serves mmap only for an exactly matching live window), and a complete success may not be reported with wrong data. The same for slices derived from the region's slice through every derivation the API offers (split_at either half, subslice, offset, get_slice, array and reference to_slice, two-step chains): the operations run through the derived accessor with the same oracles. Advance-mapped grant, foreign and UNIX regions: same operations, no device request allowed. States/transitions: one transition per operation executed on the real region.");
     ctx.assume("gntdev/privcmd are emulated at the ioctl contract level (grant reference r = file offset r*4096)");
     if ctx.replay_of.is_some() {
         println!("replay: deterministic enumeration; re-running it");
